@@ -3,6 +3,7 @@ package c06
 
 import (
 	"fmt"
+	"regexp"
 	"strconv"
 
 	plush "github.com/gobuffalo/plush/v5"
@@ -27,6 +28,7 @@ func init() {
 	vrt.Register("C06_literals", Literals)
 	vrt.Register("C06_node_evaluated_again", NodeEvaluatedAgain)
 	vrt.Register("C06_float_symbolic", FloatSymbolic)
+	vrt.Register("C06_regex_patterns", func() { RegexPatterns("~=") })
 }
 
 var binops = []string{"+", "-", "*", "/", "<", "<=", ">", ">=", "==", "!=", "&&", "||", "~="}
@@ -555,10 +557,20 @@ func StringChains() {
 	ctx.Set("m", m)
 	ctx.Set("t", t)
 	var expr string
-	k := vrt.Choice(10)
+	k := vrt.Choice(15)
 	compute := func() (want string) {
 		e := ent.Esc(s)
 		switch k {
+		case 10: // both operands of one operator are concatenations (two intermediates alive at once)
+			expr, want = "(s + n) + (s + m)", e+strconv.Itoa(n)+e+strconv.Itoa(m)
+		case 11:
+			expr, want = "(\"a\" + n) == (\"a\" + m)", b2s(n == m)
+		case 12:
+			expr, want = "(s + 1) == (s + 2)", "false"
+		case 13:
+			expr, want = "(\"a\" + 1) + (\"b\" + 2) + (\"c\" + n)", "a1b2c"+strconv.Itoa(n)
+		case 14:
+			expr, want = "(s + \"x\") + (s + \"y\")", e+"x"+e+"y"
 		case 0:
 			expr, want = "s + n + m", e+strconv.Itoa(n)+strconv.Itoa(m)
 		case 1:
@@ -782,5 +794,46 @@ func FloatSymbolic() {
 	got, err := render(expr, ctx)
 	vrt.Assert(err == nil, "float operator renders: "+op)
 	vrt.Assert(got == b2s(want), "float operator on arbitrary float64 operands: value equals Go's: "+op)
+	vrt.Cover("done")
+}
+
+// ---- s ~= p for subjects and patterns from pools that include patterns the
+// regexp package rejects for different reasons (unbalanced brackets, bad
+// repetition, bytes that are not UTF-8 with and without metacharacters) and
+// subjects that are not UTF-8: the value is Go's MatchString, a pattern that
+// does not compile is an error. (Also registered under C05: a failing
+// operation fails the render.)
+var rxSubjects = []string{"abc", "", "a(b", "caf\xe9", "\xff", "a.c", "b"}
+var rxPatterns = []string{"b", "^a", "c$", "(", "[a", "a{2,1}", "\xff", "caf\xe9", "a\xffb", "", ".", "a|x", "\\d", "a.c", "*", "b+"}
+
+func RegexPatterns(what string) {
+	s := rxSubjects[vrt.Choice(len(rxSubjects))]
+	p := rxPatterns[vrt.Choice(len(rxPatterns))]
+	ctx := plush.NewContext()
+	ctx.Set("s", s)
+	ctx.Set("p", p)
+	// the operator node may be evaluated once or twice (a pattern cache must not change the verdict)
+	expr := "s ~= p"
+	twice := vrt.Choice(2) == 1
+	in := "<%= " + expr + " %>"
+	if twice {
+		in = "<%= " + expr + " %>|<%= " + expr + " %>"
+	}
+	vrt.Note("input", in)
+	got, err := plush.Render(in, ctx)
+	vrt.Note("got", got)
+	rx, cerr := regexp.Compile(p)
+	if cerr != nil {
+		vrt.Assert(err != nil, what+": a pattern that does not compile is an error")
+		vrt.Assert(got == "", what+": a failed render returns no output")
+		vrt.Cover("bad pattern")
+		return
+	}
+	want := b2s(rx.MatchString(s))
+	if twice {
+		want = want + "|" + want
+	}
+	vrt.Assert(err == nil, what+": a pattern that compiles renders")
+	vrt.Assert(got == want, what+": the value is that of Go's regexp match")
 	vrt.Cover("done")
 }
